@@ -107,6 +107,24 @@ fn hash_part(ctx: &Ctx, thorough: bool) {
                 dl += if klen % 16 == 0 || klen == bl || klen + 1 == bl { 1 } else { dstep };
             }
         }
+        // the same object keyed in other orders: descending lengths (each key a prefix of the previous one),
+        // alternating short/long, equal-length keys differing in one byte, the empty key after a long one -
+        // an implementation that caches key schedules must not confuse them
+        let mut order: Vec<usize> = (0..=bl).rev().collect();
+        order.extend([bl, 0, bl / 2, 1, bl, 20, 32, 20, 0, hl, bl]);
+        for klen in order {
+            for tag in [3u8, 4u8] {
+                let key = pat(klen, tag);
+                let data = pat(37, 9);
+                let mut out = vec![0u8; 64];
+                let r = catch_unwind(AssertUnwindSafe(|| obj.hmac(&key, &data, &mut out)));
+                n += 1;
+                if r.is_err() || out[..hl] != h.hmac(&key, &data)[..] {
+                    ctx.violation("HMAC output differs from RFC 2104", format!("{who} key_len {klen} after other keys on the same object (descending / alternating order)"), json!({"kind": "hmac-order", "hash": h.name(), "ring": ring, "klen": klen}));
+                    break;
+                }
+            }
+        }
         // HKDF
         for outputs in 1..=3usize {
             for il in [0usize, 1, 31, 32, 33, 56, 64, 65, 128] {
